@@ -139,6 +139,24 @@ Proof.
     [> rewrite cnt_upd by assumption; rewrite (Hspawn c eq_refl); cbn; lia | same | same | same | same | same | same | same
      | intros c0 [H|H]; discriminate | intros c0 H; discriminate
      | rewrite upd_length; assumption | intros r H; discriminate ].
+  - (* LReqStart *)
+    unfold sget in Hs. destruct (nth c (sess s) SNone) eqn:Hn; try discriminate. injection Hs as <-.
+    assert (Hlt: (c < length (sess s))%nat) by (apply nth_not_none_lt; congruence).
+    constructor; cbn;
+    [> rewrite cnt_upd by assumption; rewrite Hn; cbn; lia | same | same | same | same | same | same | same
+     | intros c0 H; rewrite upd_length; auto
+     | intros c0 H; destruct (Nat.eq_dec c0 c) as [->|Hne];
+       [rewrite (Hspawn c H) in Hn; discriminate | rewrite nth_upd_other by assumption; auto]
+     | rewrite upd_length; assumption | same ].
+  - (* LReqEnd *)
+    unfold sget in Hs. destruct (nth c (sess s) SNone) eqn:Hn; try discriminate. injection Hs as <-.
+    assert (Hlt: (c < length (sess s))%nat) by (apply nth_not_none_lt; congruence).
+    constructor; cbn;
+    [> rewrite cnt_upd by assumption; rewrite Hn; cbn; lia | same | same | same | same | same | same | same
+     | intros c0 H; rewrite upd_length; auto
+     | intros c0 H; destruct (Nat.eq_dec c0 c) as [->|Hne];
+       [rewrite (Hspawn c H) in Hn; discriminate | rewrite nth_upd_other by assumption; auto]
+     | rewrite upd_length; assumption | same ].
   - (* LSessClose *)
     unfold sget in Hs. destruct (nth c (sess s) SNone) eqn:Hn; try discriminate. injection Hs as <-.
     assert (Hlt: (c < length (sess s))%nat) by (apply nth_not_none_lt; congruence).
@@ -248,6 +266,10 @@ Proof.
   - destruct (a_pc s); try discriminate. injection Hs as <-. right; right. eexists _, _; (split; [reflexivity|discriminate]).
   - unfold sget in Hs. destruct (nth c (sess s) SNone); try discriminate. injection Hs as <-.
     right; right. eexists _, _; (split; [reflexivity|discriminate]).
+  - unfold sget in Hs. destruct (nth c (sess s) SNone); try discriminate. injection Hs as <-.
+    right; right. eexists _, _; (split; [reflexivity|discriminate]).
+  - unfold sget in Hs. destruct (nth c (sess s) SNone); try discriminate. injection Hs as <-.
+    right; right. eexists _, _; (split; [reflexivity|discriminate]).
   - unfold sget in Hs. destruct (nth c (sess s) SNone) eqn:Hn; try discriminate. injection Hs as <-.
     right; right. exists c, SEnded. split; [reflexivity|]. intros _. exact Hn.
   - destruct (s_pc s); try discriminate. injection Hs as <-. left; reflexivity.
@@ -313,6 +335,58 @@ Proof.
     repeat match type of Hs with
            | context [match ?x with _ => _ end] => destruct x; try discriminate
            end; injection Hs as <-; reflexivity.
+Qed.
+
+(* ... nor the responses written so far *)
+Theorem shutdown_keeps_answers fixed s l s' : shutdown_label l = true -> step fixed s l = Some s' -> answered s' = answered s.
+Proof.
+  intros Hl Hs. destruct l; try discriminate; cbn [step] in Hs;
+    repeat match type of Hs with
+           | context [match ?x with _ => _ end] => destruct x; try discriminate
+           end; injection Hs as <-; reflexivity.
+Qed.
+
+(* a request in flight: whatever any thread does, the session stays in flight until its own handler returns, and
+   that step - the only one that leaves the state - writes the response on the session's connection *)
+Theorem inflight_completes s l s' c :
+  Inv s -> step true s l = Some s' -> sget s c = SInFlight ->
+  (sget s' c = SInFlight /\ answered s' = answered s)
+  \/ (exists c', l = LReqEnd c' /\ c' <> c /\ sget s' c = SInFlight)
+  \/ (l = LReqEnd c /\ sget s' c = SRunning /\ answered s' = answered s ++ [c]).
+Proof.
+  intros HI Hs Hc. inv_fields HI. unfold sget in *.
+  assert (Hlt: (c < length (sess s))%nat) by (apply nth_not_none_lt; congruence).
+  destruct l as [| | | | |c0|c0|c0|c0| | | | | | | |]; cbn [step] in Hs;
+    try (left;
+         repeat match type of Hs with
+                | context [match ?x with _ => _ end] => destruct x eqn:?; try discriminate
+                end; injection Hs as <-; cbn; (split; [assumption|reflexivity])).
+  - (* LConnect *) destruct (lis_closed s); [discriminate|]. injection Hs as <-. cbn. left.
+    split; [rewrite app_nth1 by assumption; assumption|reflexivity].
+  - (* LRegister *)
+    destruct (a_pc s) as [|c0|c0|r]; try discriminate. unfold sget in Hs.
+    destruct (nth c0 (sess s) SNone) eqn:Hn; cbn [negb] in Hs; try discriminate.
+    assert (c0 <> c) by congruence.
+    destruct (true && done s); injection Hs as <-; cbn; left;
+      (split; [rewrite nth_upd_other by congruence; assumption|reflexivity]).
+  - (* LSpawn *)
+    destruct (a_pc s) as [|c0|c0|r] eqn:Ha; try discriminate. injection Hs as <-. cbn.
+    assert (c0 <> c) by (intros ->; rewrite (Hspawn c eq_refl) in Hc; discriminate).
+    left. split; [rewrite nth_upd_other by congruence; assumption|reflexivity].
+  - (* LReqStart *)
+    unfold sget in Hs. destruct (nth c0 (sess s) SNone) eqn:Hn; try discriminate. injection Hs as <-. cbn.
+    assert (c0 <> c) by congruence. left. split; [rewrite nth_upd_other by congruence; assumption|reflexivity].
+  - (* LReqEnd *)
+    unfold sget in Hs. destruct (nth c0 (sess s) SNone) eqn:Hn; try discriminate. injection Hs as <-. cbn.
+    destruct (Nat.eq_dec c0 c) as [->|Hne].
+    + right; right. split; [reflexivity|]. split; [apply nth_upd_same; assumption|reflexivity].
+    + right; left. exists c0. split; [reflexivity|]. split; [assumption|]. rewrite nth_upd_other by congruence. assumption.
+  - (* LSessClose *)
+    unfold sget in Hs. destruct (nth c0 (sess s) SNone) eqn:Hn; try discriminate. injection Hs as <-. cbn.
+    assert (c0 <> c) by congruence. left. split; [rewrite nth_upd_other by congruence; assumption|reflexivity].
+  - (* LSessDone *)
+    unfold sget in Hs. destruct (nth c0 (sess s) SNone) eqn:Hn; try discriminate. injection Hs as <-. cbn.
+    assert (c0 <> c) by congruence. left. split; [rewrite nth_upd_other by congruence; assumption|reflexivity].
 Qed.
 
 (* once Shutdown has been signalled no session is registered any more *)
